@@ -1,4 +1,3 @@
-CONSTANTS Lens = {6,7} MaxN = 2 Styles = {"all"}
 SPECIFICATION GSpec
 INVARIANT Emit
 CHECK_DEADLOCK FALSE
